@@ -447,6 +447,11 @@ pub struct C15Case {
     /// what another implementation or the core builder can produce); `s` is empty then: every expected claim is absent
     #[serde(default)]
     pub raw_payload: Option<String>,
+    /// harness validators registered on the same parser (accepting ones: the expectation must still be enforced)
+    #[serde(default)]
+    pub validators: Vec<VSpec>,
+    #[serde(default)]
+    pub validators_first: bool,
 }
 
 /// authentic tokens whose payload is JSON but not an object: no claim is present in them
@@ -576,7 +581,7 @@ fn c15_verdict(c: &C15Case, tok_claims: &Map<String, Value>, out: &Out<Value>, r
 }
 
 fn open_c15(c: &C15Case, tok: &str) -> Out<Value> {
-    let cfg = ParserCfg { expected: c.e.clone(), default_parser: c.default_parser, expected_via_extend: c.class.ends_with("[extend_check_claims]"), ..Default::default() };
+    let cfg = ParserCfg { expected: c.e.clone(), default_parser: c.default_parser, expected_via_extend: c.class.ends_with("[extend_check_claims]"), validators: c.validators.clone(), validators_first: c.validators_first, ..Default::default() };
     match c.layer {
         Layer::Generic => generic_open(c.p, &c.key, tok, &cfg).0,
         _ => batteries_open(c.p, &c.key, tok, &cfg).0,
@@ -625,6 +630,13 @@ fn perturb(v: &Value, rng: &mut Rng) -> (Value, &'static str) {
                     0 => (json!(i.wrapping_add(1)), "off-by-one"),
                     1 => (json!(i.to_string()), "type"),
                     _ => (json!(i as f64 + 0.5), "fraction"),
+                }
+            } else if let Some(f) = n.as_f64() {
+                // a float that differs only far behind the decimal point (beyond single precision), or its string form
+                match rng.below(3) {
+                    0 => (json!(f * (1.0 + 1e-9)), "float-differs-beyond-f32-precision"),
+                    1 => (json!(f + f.abs() * 2e-8 + 1e-300), "float-differs-beyond-f32-precision"),
+                    _ => (json!(n.to_string()), "type"),
                 }
             } else {
                 (json!(n.to_string()), "type")
@@ -676,6 +688,7 @@ fn c15_token_claims(rng: &mut Rng, allow_time: bool) -> Vec<ClaimOp> {
             },
             5 if rng.chance(1, 3) => Claim::Custom(["Role", "userId", "X-Seats", "ÄB", "roLE"][rng.below(5)].to_string(), json!(format!("v{}", rng.below(50)))),
             5 => Claim::Custom(format!("n{}", i), json!(rng.below(100) as i64)),
+            6 if rng.chance(1, 2) => Claim::Custom(format!("f{}", i), json!([3.141526f64, 16_777_216.25, 0.1, 1e39, 2.5e-7, 1234.5678][rng.below(6)])),
             6 => Claim::Custom(format!("b{}", i), json!(rng.chance(1, 2))),
             7 => Claim::Custom(format!("o{}", i), gens::json_tree(rng, 2)),
             _ if rng.chance(1, 5) => Claim::Custom(format!("s{}", i), json!(format!("{}{}", rng.utf8_1upto(8), "a".repeat(256 + 256 * rng.below(2))))),
@@ -796,18 +809,18 @@ pub fn run_c15(tier: &str, seed: u64) -> Report {
         }
         for (layer, dp) in [(Layer::Generic, false), (Layer::Batteries, false), (Layer::Batteries, true)] {
             for (e, class) in &variants {
-                let c = C15Case { p, key: key.clone(), s: s.clone(), e: e.clone(), layer, default_parser: dp, class: class.clone(), raw_payload: None };
+                let c = C15Case { p, key: key.clone(), s: s.clone(), e: e.clone(), layer, default_parser: dp, class: class.clone(), raw_payload: None, validators: vec![], validators_first: false };
                 c15_eval(&c, r);
                 if layer == Layer::Generic && j % 3 == 0 {
                     // the same expectations registered through one extend_check_claims(map) call
-                    let c = C15Case { p, key: key.clone(), s: s.clone(), e: e.clone(), layer, default_parser: dp, class: format!("{} [extend_check_claims]", class), raw_payload: None };
+                    let c = C15Case { p, key: key.clone(), s: s.clone(), e: e.clone(), layer, default_parser: dp, class: format!("{} [extend_check_claims]", class), raw_payload: None, validators: vec![], validators_first: false };
                     c15_eval(&c, r);
                     r.count("expectations registered through extend_check_claims");
                 }
             }
-            let c = C15Case { p, key: key.clone(), s: s_null.clone(), e: vec![Claim::Custom("nullish".into(), Value::Null)], layer, default_parser: dp, class: "expected-null-present-null".into(), raw_payload: None };
+            let c = C15Case { p, key: key.clone(), s: s_null.clone(), e: vec![Claim::Custom("nullish".into(), Value::Null)], layer, default_parser: dp, class: "expected-null-present-null".into(), raw_payload: None, validators: vec![], validators_first: false };
             c15_eval(&c, r);
-            let c = C15Case { p, key: key.clone(), s: s_null.clone(), e: vec![Claim::Custom("nullish".into(), json!(1))], layer, default_parser: dp, class: "expected-value-present-null".into(), raw_payload: None };
+            let c = C15Case { p, key: key.clone(), s: s_null.clone(), e: vec![Claim::Custom("nullish".into(), json!(1))], layer, default_parser: dp, class: "expected-value-present-null".into(), raw_payload: None, validators: vec![], validators_first: false };
             c15_eval(&c, r);
         }
     });
@@ -824,7 +837,7 @@ pub fn run_c15(tier: &str, seed: u64) -> Report {
                     continue;
                 }
                 for e in [vec![Claim::Aud("customers".into())], vec![Claim::Custom("k".into(), json!(1))], vec![Claim::Custom("0".into(), json!("aud")), Claim::Sub("x".into())]] {
-                    let c = C15Case { p, key: key.clone(), s: vec![], e, layer, default_parser: dp, class: "non-object-payload".into(), raw_payload: Some(text.to_string()) };
+                    let c = C15Case { p, key: key.clone(), s: vec![], e, layer, default_parser: dp, class: "non-object-payload".into(), raw_payload: Some(text.to_string()), validators: vec![], validators_first: false };
                     let before = rn.violations_total;
                     c15_eval(&c, &mut rn);
                     if rn.violations_total == before {
@@ -888,7 +901,7 @@ pub fn run_c15(tier: &str, seed: u64) -> Report {
             for (pos, (o, _)) in outs.iter().enumerate() {
                 r.evaluations += 1;
                 let k = order[pos];
-                let c = C15Case { p, key: key.clone(), s: specs[k].clone(), e: e.clone(), layer, default_parser: dp, class: "history".into(), raw_payload: None };
+                let c = C15Case { p, key: key.clone(), s: specs[k].clone(), e: e.clone(), layer, default_parser: dp, class: "history".into(), raw_payload: None, validators: vec![], validators_first: false };
                 let ok = c15_verdict(&c, &model_object(&specs[k]), o, r, &format!(" [parse #{} of one parser, order {:?}]", pos + 1, order));
                 if ok {
                     r.count("history parses consistent with a fresh parser");
@@ -953,11 +966,38 @@ pub fn run_c15(tier: &str, seed: u64) -> Report {
         for (k, tokv, expv) in [("exp", "2999-01-01T00:00:00+00:00", "2888-01-01T00:00:00+00:00"), ("nbf", "2001-01-01T00:00:00+00:00", "2002-01-01T00:00:00+00:00")] {
             let s = vec![ClaimOp::Set(to_claim(k, &json!(tokv))), ClaimOp::Set(Claim::Custom("n".into(), json!(1)))];
             for (dp, e) in [(true, expv), (false, expv), (true, tokv), (false, tokv)] {
-                let c = C15Case { p, key: key.clone(), s: s.clone(), e: vec![to_claim(k, &json!(e))], layer: Layer::Batteries, default_parser: dp, class: format!("time-claim-expectation key={}", k), raw_payload: None };
+                let c = C15Case { p, key: key.clone(), s: s.clone(), e: vec![to_claim(k, &json!(e))], layer: Layer::Batteries, default_parser: dp, class: format!("time-claim-expectation key={}", k), raw_payload: None, validators: vec![], validators_first: false };
                 c15_eval(&c, &mut r);
             }
         }
     }
+    // ---- an expectation on a key that ALSO has a (tolerant) validator, and a token that lacks the claim: still missing.
+    // (the default parser's own exp/nbf validators tolerate absence; a harness validator that accepts everything likewise)
+    for &p in &ALL {
+        let key = pools.key(p, 0);
+        let s = vec![ClaimOp::Set(Claim::Custom("n".into(), json!(1)))];
+        for (layer, dp) in [(Layer::Generic, false), (Layer::Batteries, false), (Layer::Batteries, true)] {
+            let mut combos: Vec<(Vec<Claim>, Vec<VSpec>, bool)> = vec![
+                (vec![Claim::Custom("role".into(), json!("admin"))], vec![VSpec { claim: Claim::Custom("role".into(), json!("dummy")), behave: VBehave::Accept, reg: VReg::ValidateClaim, second: false }], true),
+                (vec![Claim::Aud("customers".into())], vec![VSpec { claim: Claim::Aud("dummy".into()), behave: VBehave::Accept, reg: VReg::ValidateClaim, second: false }], true),
+            ];
+            // (the validator is registered FIRST, check_claim afterwards: the other order replaces the expectation by the
+            // validator's placeholder claim, which is the API's "last registration wins" and not a defect)
+            if dp {
+                combos.push((vec![Claim::Exp("2999-01-01T00:00:00+00:00".into())], vec![], false));
+                combos.push((vec![Claim::Nbf("2001-01-01T00:00:00+00:00".into())], vec![], false));
+            }
+            for (e, validators, vf) in combos {
+                let c = C15Case { p, key: key.clone(), s: s.clone(), e, layer, default_parser: dp, class: "expected-claim-absent+validator-on-the-same-key".into(), raw_payload: None, validators, validators_first: vf };
+                let before = r.violations_total;
+                c15_eval(&c, &mut r);
+                if r.violations_total == before {
+                    r.count("expected claim absent although its key has a validator: refused as missing");
+                }
+            }
+        }
+    }
+    r.require("expected claim absent although its key has a validator: refused as missing", 60);
     total.merge(r);
     for &p in &ALL {
         for t in ["generic", "batteries", "batteries-default"] {
@@ -980,7 +1020,7 @@ pub fn replay_c15(case: &Value) -> Report {
     r
 }
 
-pub const RULE_C15: &str = "for seeded random token claim sets S (registered string claims, integers, booleans, nested JSON, strings) the expected sets E = {equal, random subset, superset with one absent claim, one value changed (case / trailing space / NUL suffix / one byte longer / extended or shortened by exactly 256, 512, 65536 bytes / type / off-by-one / fraction / negation / extra element; time claims: another instant and the same instant or second spelled differently), one key changed by one character, expected value on a claim that is present as null, integer-vs-float spelling (don't-care)} are registered with check_claim (and, on GenericParser, also through one extend_check_claims call) on GenericParser, PasetoParser::new() and PasetoParser::default() and the authentic token is parsed; oracle = harness-side comparison of S and E: accept iff no discrepancy; a missing-only discrepancy must be reported as Missing(k) for a missing k; an error must name a failing claim. Plus 500 (thorough 5000) histories: one parser processes 8 tokens in 4 orders and every outcome must equal the fresh-parser outcome. Plus sessions in which the expectation for a key is REPLACED on a live parser between parses (check_claim again with another value), and 160 (thorough 2000) NESTED pairs of such sessions (a second parser with other expectations is created, used and dropped in the middle of the first one's life on the same thread). Plus PasetoParser::default().check_claim(exp|nbf) as its own class. Plus authentic tokens whose payload is valid JSON but not an object (sealed at the core layer: [], \"aud\", 137, true, null, ...): every expectation must fail. Token claim keys include path/pointer look-alikes ('a/b' next to a nested a.b, 'https://example.com/role', '~0', 'a[0]'). distinct_nontrivial = distinct (protocol, parser kind, outcome, expectation class, error variant)";
+pub const RULE_C15: &str = "for seeded random token claim sets S (registered string claims, integers, booleans, nested JSON, strings) the expected sets E = {equal, random subset, superset with one absent claim, one value changed (case / trailing space / NUL suffix / one byte longer / extended or shortened by exactly 256, 512, 65536 bytes / type / off-by-one / a float changed only beyond single precision / fraction / negation / extra element; time claims: another instant and the same instant or second spelled differently), one key changed by one character, expected value on a claim that is present as null, integer-vs-float spelling (don't-care)} are registered with check_claim (and, on GenericParser, also through one extend_check_claims call) on GenericParser, PasetoParser::new() and PasetoParser::default() and the authentic token is parsed; oracle = harness-side comparison of S and E: accept iff no discrepancy; a missing-only discrepancy must be reported as Missing(k) for a missing k; an error must name a failing claim. Plus 500 (thorough 5000) histories: one parser processes 8 tokens in 4 orders and every outcome must equal the fresh-parser outcome. Plus sessions in which the expectation for a key is REPLACED on a live parser between parses (check_claim again with another value), and 160 (thorough 2000) NESTED pairs of such sessions (a second parser with other expectations is created, used and dropped in the middle of the first one's life on the same thread). Plus PasetoParser::default().check_claim(exp|nbf) as its own class. Plus an expectation on a key that also has a tolerant validator (a harness one, or the default parser's own exp/nbf validators) against a token that lacks the claim: still refused as missing. Plus authentic tokens whose payload is valid JSON but not an object (sealed at the core layer: [], \"aud\", 137, true, null, ...): every expectation must fail. Token claim keys include path/pointer look-alikes ('a/b' next to a nested a.b, 'https://example.com/role', '~0', 'a[0]'). distinct_nontrivial = distinct (protocol, parser kind, outcome, expectation class, error variant)";
 
 // ==========================================================================================
 // C16
@@ -1228,7 +1268,7 @@ fn random_validators(rng: &mut Rng, s: &Map<String, Value>, allow_extend: bool, 
         let dummy = if val.is_string() || val.is_null() { json!("dummy") } else { val.clone() };
         let claim = to_claim(&k, &if RESERVED.contains(&k.as_str()) { json!(if ["exp", "nbf", "iat"].contains(&k.as_str()) { "2019-01-01T00:00:00+00:00" } else { "dummy" }) } else { dummy });
         let reg = if allow_extend && rng.chance(1, 3) { VReg::ExtendOnly } else { VReg::ValidateClaim };
-        v.push(VSpec { claim, behave, reg });
+        v.push(VSpec { claim, behave, reg, second: false });
     }
     v
 }
@@ -1268,7 +1308,8 @@ pub fn run_c16(tier: &str, seed: u64) -> Report {
         }
         let sm = model_object(&s);
         let (layer, dp) = [(Layer::Generic, false), (Layer::Generic, false), (Layer::Batteries, false), (Layer::Batteries, true)][j % 4];
-        let validators = random_validators(&mut rng, &sm, layer == Layer::Generic, dp);
+        // on the default parser a harness validator for exp / nbf REPLACES the built-in one (half of the cases allow it)
+        let validators = random_validators(&mut rng, &sm, layer == Layer::Generic, dp && j % 8 < 4);
         let expected: Vec<Claim> = if rng.chance(1, 3) { sm.iter().filter(|(k, _)| !(dp && (*k == "exp" || *k == "nbf"))).take(1).map(|(k, v)| to_claim(k, v)).collect() } else { vec![] };
         let forgery = forgeries[(j / 4) % forgeries.len()].to_string();
         // expectations on keys that also have a validator, registered after it, with the token's own value (so only the validator can object)
@@ -1300,7 +1341,7 @@ pub fn run_c16(tier: &str, seed: u64) -> Report {
                 for (vi, behave) in [VBehave::Reject, VBehave::Accept, VBehave::AcceptIfPresent].into_iter().enumerate() {
                     let reg = if layer == Layer::Generic && (ti + vi) % 2 == 1 { VReg::ExtendOnly } else { VReg::ValidateClaim };
                     let claim = if vi == 1 { Claim::Custom("k".into(), json!(0)) } else { Claim::Aud("x".into()) };
-                    let c = C16Case { validators_first: false, p, key: key.clone(), s: vec![], validators: vec![VSpec { claim, behave, reg }], expected: vec![], layer, default_parser: dp, forgery: "authentic".into(), class: "non-object-payload".into(), raw_payload: Some(text.to_string()) };
+                    let c = C16Case { validators_first: false, p, key: key.clone(), s: vec![], validators: vec![VSpec { claim, behave, reg, second: false }], expected: vec![], layer, default_parser: dp, forgery: "authentic".into(), class: "non-object-payload".into(), raw_payload: Some(text.to_string()) };
                     let before = rn.violations_total;
                     c16_eval(&c, &mut rn, seed);
                     if rn.violations_total == before {
@@ -1351,7 +1392,7 @@ pub fn run_c16(tier: &str, seed: u64) -> Report {
             let reg = if layer == Layer::Generic && rng.chance(1, 2) { VReg::ExtendOnly } else { VReg::ValidateClaim };
             let val = sm.get(k).cloned().unwrap_or(json!("x"));
             let claim = if RESERVED.contains(&k.as_str()) { if val.is_string() { to_claim(k, &val) } else { continue } } else { Claim::Custom(k.clone(), val) };
-            specs.push(VSpec { claim, behave, reg });
+            specs.push(VSpec { claim, behave, reg, second: false });
         }
         if specs.len() <= initial {
             return;
@@ -1380,9 +1421,50 @@ pub fn run_c16(tier: &str, seed: u64) -> Report {
                 r.count("live-parser parses conform");
             }
         }
+        // ... finally a SECOND, distinguishable validator is registered for a key that already has one (on the default
+        // parser: for exp, whose built-in validator it replaces): the last registration must run and its verdict be honoured
+        if i % 2 == 0 {
+            let rekey = if dp { Claim::Exp("2019-01-01T00:00:00+00:00".into()) } else { specs[0].claim.clone() };
+            for (behave, want_ok) in [(VBehave::Accept, None::<bool>), (VBehave::Reject, Some(false))] {
+                let v2 = VSpec { claim: rekey.clone(), behave, reg: if layer == Layer::Generic && i % 4 == 0 { VReg::ExtendOnly } else { VReg::ValidateClaim }, second: true };
+                let mut steps2 = steps.clone();
+                steps2.push(PStep::Validate(v2.clone()));
+                steps2.push(PStep::Parse { token: tok.clone(), key: 0 });
+                let outs2 = session(p, layer != Layer::Generic, &[key.clone()], &cfg, &steps2);
+                let logs2 = session_logs_take();
+                r.evaluations += 1;
+                let (last, log) = match (outs2.last(), logs2.last()) {
+                    (Some(o), Some(l)) if outs2.len() == nparse + 1 => (o, l),
+                    _ => {
+                        r.inconclusive.push(format!("C16 re-registration session on {}: {} outcomes for {} parses", p.name(), outs2.len(), nparse + 1));
+                        continue;
+                    }
+                };
+                let ran = log.iter().filter(|(k, _)| k == &format!("#2:{}", rekey.key())).count();
+                let replay = json!({"cmd": "C16", "note": "live-parser session with a second validator registered for a key that already has one: re-run the check", "protocol": p.name(), "parser": tag, "key": rekey.key(), "token_claims": sm});
+                if last.is_panic() {
+                    r.violation(format!("C16 panic {}", tag), format!("{}: panic after re-registering a validator: {}", tag, last.brief()), replay);
+                } else if want_ok == Some(false) && last.is_ok() {
+                    r.violation(
+                        format!("C16 re-registered-rejecting-validator-not-honoured {}", tag),
+                        format!("{}: a rejecting validator was registered for {:?}, a key that already had a validator; the next parse SUCCEEDED (second validator invoked {} time(s); call log {:?})", tag, rekey.key(), ran, log),
+                        replay,
+                    );
+                } else if last.is_ok() && ran != 1 {
+                    r.violation(
+                        format!("C16 re-registered-validator-never-ran {}", tag),
+                        format!("{}: an accepting validator was registered for {:?}, a key that already had a validator; the next parse succeeded but the new validator ran {} time(s); call log {:?}", tag, rekey.key(), ran, log),
+                        replay,
+                    );
+                } else {
+                    r.count("re-registered validators: the last registration runs and is honoured");
+                }
+            }
+        }
     });
     total.merge(r);
     total.require("live-parser parses conform", (nl / 2) as u64);
+    total.require("re-registered validators: the last registration runs and is honoured", (nl / 8) as u64);
 
     // ---- sequences: one parser, authentic and forged tokens interleaved; verdict per parse as for a fresh parser
     let nh = if thorough { 3000 } else { 300 };
@@ -1391,8 +1473,8 @@ pub fn run_c16(tier: &str, seed: u64) -> Report {
         let p = [P::V4L, P::V4P, P::V2L, P::V3L, P::V2P][i % 5];
         let key = pools.key(p, i % pools.count(p));
         let validators = vec![
-            VSpec { claim: Claim::Custom("role".into(), json!("dummy")), behave: VBehave::AcceptIfEq(json!("admin")), reg: VReg::ValidateClaim },
-            VSpec { claim: Claim::Aud("dummy".into()), behave: VBehave::AcceptIfPresent, reg: VReg::ValidateClaim },
+            VSpec { claim: Claim::Custom("role".into(), json!("dummy")), behave: VBehave::AcceptIfEq(json!("admin")), reg: VReg::ValidateClaim, second: false },
+            VSpec { claim: Claim::Aud("dummy".into()), behave: VBehave::AcceptIfPresent, reg: VReg::ValidateClaim, second: false },
         ];
         let specs: Vec<Vec<ClaimOp>> = vec![
             vec![ClaimOp::Set(Claim::Custom("role".into(), json!("admin"))), ClaimOp::Set(Claim::Aud("a".into()))],
@@ -1452,4 +1534,4 @@ pub fn replay_c16(rec: &Value, case: &Value) -> Report {
     r
 }
 
-pub const RULE_C16: &str = "harness validators are static functions that append (key, value) to a thread-local call log and answer from a behaviour table (accept / reject / accept-iff-equal / accept-iff-present). For seeded random token claim sets, 0-3 validators over registered and custom keys (present and absent in the payload) are registered through validate_claim and, on GenericParser, through extend_validation_claims only; parsers: GenericParser, PasetoParser::new(), PasetoParser::default(). Each configuration parses either the authentic token or a forgery (wrong key, wrong footer, wrong assertion, relabelled header, bit flip, truncation). Monitors: no log entry for a forged token; for an authentic token every logged value equals the payload member (null when absent), each key at most once, Ok only if every registered validator ran and accepts, Err only if a validator or expectation fails, and the error stems from a rejecting validator. Plus 300 (thorough 3000) sequences where one parser processes shuffled authentic and forged tokens; 400 (thorough 4000) LIVE-parser sessions in which validators are added (validate_claim / extend_validation_claims) between parses of one parser object and every validator registered so far must run and be honoured on the next parse; authentic tokens whose payload is JSON but not an object (sealed at the core layer): validators still run, with null. distinct_nontrivial = distinct (protocol, parser kind, authentic|forgery kind, outcome, #validators, #rejecting, registration routes)";
+pub const RULE_C16: &str = "harness validators are static functions that append (key, value) to a thread-local call log and answer from a behaviour table (accept / reject / accept-iff-equal / accept-iff-present). For seeded random token claim sets, 0-3 validators over registered and custom keys (present and absent in the payload) are registered through validate_claim and, on GenericParser, through extend_validation_claims only; parsers: GenericParser, PasetoParser::new(), PasetoParser::default(). Each configuration parses either the authentic token or a forgery (wrong key, wrong footer, wrong assertion, relabelled header, bit flip, truncation). Monitors: no log entry for a forged token; for an authentic token every logged value equals the payload member (null when absent), each key at most once, Ok only if every registered validator ran and accepts, Err only if a validator or expectation fails, and the error stems from a rejecting validator. Plus 300 (thorough 3000) sequences where one parser processes shuffled authentic and forged tokens; 400 (thorough 4000) LIVE-parser sessions in which validators are added (validate_claim / extend_validation_claims) between parses of one parser object and every validator registered so far must run and be honoured on the next parse, incl. a second, distinguishable validator registered for a key that already has one (on the default parser: replacing the built-in exp validator) — the last registration runs and is honoured; authentic tokens whose payload is JSON but not an object (sealed at the core layer): validators still run, with null. distinct_nontrivial = distinct (protocol, parser kind, authentic|forgery kind, outcome, #validators, #rejecting, registration routes)";
